@@ -12,7 +12,7 @@ func clearlyBelow(a, b int64) bool { return a*65536 < b*65535 }
 func clearlyAbove(a, b int64) bool { return a*65535 > b*65536 }
 
 // VerifHarness_C06: direction and taint rate follow the utilisation bands.
-// shape: [nodes, pods, class menu, cordon symbolic(0/1), triggers (0 none, 1 scale_on_starve, 2 max_node_age), memory-bound (0/1)]
+// shape: [nodes, pods, class menu, cordon symbolic(0/1), triggers (0 none, 1 scale_on_starve, 2 max_node_age), memory-bound (0/1), prior uneventful scan (0/1)]
 func VerifHarness_C06() {
 	N, P, menu, cord, trig := verifShape(0), verifShape(1), verifShape(2), verifShape(3), verifShape(4)
 	w := newWorld(0)
@@ -43,6 +43,9 @@ func VerifHarness_C06() {
 		w.symPods("", g, P, 1, false, -3*w.cpuPerNode, false)
 	}
 	w.build()
+	if verifShape(6) == 1 {
+		w.priorScan(g)
+	}
 	s := w.snap(g)
 	mark := len(w.J.Calls)
 	_ = w.ctrl.RunOnce()
